@@ -33,7 +33,7 @@ TRUSTED = ['pbt/fakezk.py', 'pbt/mastersim.py']
 BUDGET = {'quick': 3200, 'thorough': 128000}
 
 PROFILE = {
-    'weights': {'rmbucket': 1, 'rmbucketrestart': 2, 'restart': 8, 'reboot': 2, 'down': 3, 'up': 2, 'idg': 2,
+    'weights': {'badparent': 2, 'rmbucket': 1, 'rmbucketrestart': 2, 'restart': 8, 'reboot': 2, 'down': 3, 'up': 2, 'idg': 2,
                 'cycle': 8, 'app': 12, 'state': 5, 'downseq': 2},
     'force': ['restart', 'state'],
     'pre': (4, 12),
